@@ -1,3 +1,4 @@
+import PorepyVerif.C13.Model
 /-
 C15 — executable model of the Biot coupling terms (core Lean only).
 
@@ -101,5 +102,86 @@ def applyRows (L : List (List Rat)) (r : List Rat) : List Rat :=
 def vecOf (l : List Rat) : Vec := fun i => l.getD i 0
 def matOf (l : List (List Rat)) : Mat := fun i j => (l.getD i []).getD j 0
 def listOf (d : Nat) (v : Vec) : List Rat := (List.range d).map v
+
+
+/-! ## The assembled 2-D Biot coupling terms on top of C13's certified MPSA model (`C13.GridS`)
+
+`Biot._local_discretization` reuses the MPSA local systems: `displacement_divergence =
+div_op * vector_2_scalar * igrad * rhs_cells`, `scalar_gradient = hf2f * (hook * igrad * rhs_jumps +
+scalar_gradient_face)`.  `C13.GridS.nodeSol` is `igrad * rhs` per node (with the certified left inverse),
+`C13.GridS.subTr` is `hook`; what is added here is exactly what biot.py adds. -/
+namespace Biot2
+open PorepyVerif.C13 PorepyVerif.C13.GridS
+
+variable (G : C13.GridS)
+
+/-- `α : g` for 2×2 matrices -/
+def ddot2 (al g : C13.Mat 2) : Rat := al 0 0 * g 0 0 + al 0 1 * g 0 1 + al 1 0 * g 1 0 + al 1 1 * g 1 1
+
+def iso2 (a : Rat) : C13.Mat 2 := fun i j => if i = j then a else 0
+
+/-- nodes of cell `c` (= its sub-cells), ascending -/
+def nodesOfCell (c : Nat) : List Nat := (List.range G.numNodes).filter (fun v => (G.cellsOf v).contains c)
+
+/-- cell volume as the code distributes it: `#nodes · (cell_volume / num_cell_nodes)` -/
+def cellVol (c : Nat) : Rat := ((nodesOfCell G c).length : Nat) * G.volShare.getD c 0
+
+/-- `(displacement_divergence · u + boundary_displacement_divergence · bc)[c]` as coded: every sub-cell of
+    `c` contributes `(V_c / #nodes) · (α_c : G_s)`, `G_s` the gradient of the node's local solve -/
+def divU (al : Nat → C13.Mat 2) (sol : Nat → NodeSol) (c : Nat) : Rat :=
+  sumList ((nodesOfCell G c).map (fun v => G.volShare.getD c 0 * ddot2 (al c) ((sol v).Gs (G.loc v c))))
+
+/-- `((n_f / #nodes(f))ᵀ α_c) p_c`: pressure force on the sub-face of `f` seen from cell `c` (`nAlpha_grad * sc2c`) -/
+def nAlphaP (al : Nat → C13.Mat 2) (p : Nat → Rat) (f c : Nat) : C13.Vec 2 :=
+  fun j => (G.subNormal f 0 * al c 0 j + G.subNormal f 1 * al c 1 j) * p c
+
+/-- right-hand side entries (`rhs_jumps · p`) of the rows `C13.GridS.mkRows` creates for the sub-face of `f`:
+    interior: pressure-force imbalance on the traction row, nothing on the displacement row; Dirichlet: nothing;
+    Neumann: the pressure force of the only side -/
+def pRow (al : Nat → C13.Mat 2) (p : Nat → Rat) (f : Nat) : List Rat :=
+  match G.fcells f with
+  | [(c, _)] => if G.dirAt f then [0, 0] else [nAlphaP G al p f c 0, nAlphaP G al p f c 1]
+  | [(c1, _), (c2, _)] =>
+      [nAlphaP G al p f c1 0 - nAlphaP G al p f c2 0, nAlphaP G al p f c1 1 - nAlphaP G al p f c2 1, 0, 0]
+  | _ => []
+
+def pRhs (al : Nat → C13.Mat 2) (p : Nat → Rat) (v : Nat) : List Rat := (G.facesOf v).flatMap (pRow G al p)
+
+/-- local solve of node `v` for the pressure right-hand side: `igrad * rhs_jumps * p` -/
+def pSol (Ls : List C11.Mat) (al : Nat → C13.Mat 2) (p : Nat → Rat) (v : Nat) : NodeSol :=
+  ⟨G.region zeroData v, fun _ _ => 0, unflat (C11.mulVec (Ls.getD v []) (pRhs G al p v))⟩
+
+/-- `(scalar_gradient · p)[f]`: per sub-face Hooke's law of the induced deformation minus the pressure force of the
+    first side, summed over the sub-faces of the face -/
+def gradP (al : Nat → C13.Mat 2) (p : Nat → Rat) (sol : Nat → NodeSol) (f : Nat) : C13.Vec 2 :=
+  fun a => sumList ((G.fnodes f).map (fun v => G.subTr (sol v) v f a - nAlphaP G al p f (G.firstCell f) a))
+
+/-- `(mpsa_consistency · p)[c]`: the divergence functional applied to the pressure-induced gradients -/
+def stab (al : Nat → C13.Mat 2) (sol : Nat → NodeSol) (c : Nat) : Rat := divU G al sol c
+
+def unitP (k : Nat) : Nat → Rat := fun c => if c = k then 1 else 0
+
+/-- all boundary faces carry a Dirichlet condition -/
+def allDir : Bool := (List.range G.numFaces).all (fun f => !G.isNeu f)
+
+/-- everything the driver reports: columns of displacement_divergence (per cell, component), of
+    boundary_displacement_divergence (per face, component), of scalar_gradient and mpsa_consistency (per cell) -/
+def columns (Ls : List C11.Mat) (al : Nat → C13.Mat 2) :
+    List (List Rat) × List (List Rat) × List (List (List Rat)) × List (List Rat) :=
+  let cells := List.range G.numCells
+  let divOf (u bc : Nat → C13.Vec 2) : List Rat :=
+    let tab := (List.range G.numNodes).map (G.nodeSol Ls u bc)
+    let sol := solOf tab (G.nodeSol Ls u bc)
+    cells.map (divU G al sol)
+  let pOf (k : Nat) : List (List Rat) × List Rat :=
+    let tab := (List.range G.numNodes).map (pSol G Ls al (unitP k))
+    let sol := solOf tab (pSol G Ls al (unitP k))
+    ((List.range G.numFaces).map (fun f => vecToList (gradP G al (unitP k) sol f)), cells.map (stab G al sol))
+  let pc := cells.map pOf
+  (cells.flatMap (fun c => [divOf (unitData c 0) zeroData, divOf (unitData c 1) zeroData]),
+   (List.range G.numFaces).flatMap (fun f => [divOf zeroData (unitData f 0), divOf zeroData (unitData f 1)]),
+   pc.map (·.1), pc.map (·.2))
+
+end Biot2
 
 end PorepyVerif.C15
